@@ -14,6 +14,102 @@ use serde_json::Value;
 use std::sync::Arc;
 
 pub const STR_POOL: [&str; 4] = ["", "a", "ab", "b"]; // index 0 unused
+/// second string pool (value kind "x", table C): LIKE wildcards / regex metacharacters as ordinary characters; byte order
+pub const XPOOL: [&str; 9] = ["", "FOXO", "a", "a.b", "ab", "b", "fo%o", "fo_o", "foxo"];
+
+/// character codes of spec/lib/Expr.tla (XPoolChars / likex / regex items)
+pub fn cchar(code: i64) -> char {
+    match code {
+        1 => 'a',
+        2 => 'b',
+        11 => 'f',
+        12 => 'o',
+        13 => 'x',
+        21 => 'F',
+        22 => 'O',
+        23 => 'X',
+        31 => '_',
+        32 => '%',
+        33 => '.',
+        c => panic!("unknown character code {c}"),
+    }
+}
+pub fn ccode(c: char) -> Option<i64> {
+    Some(match c {
+        'a' => 1,
+        'b' => 2,
+        'f' => 11,
+        'o' => 12,
+        'x' => 13,
+        'F' => 21,
+        'O' => 22,
+        'X' => 23,
+        '_' => 31,
+        '%' => 32,
+        '.' => 33,
+        _ => return None,
+    })
+}
+
+/// LIKE pattern text of an inline token sequence: 101 = %, 102 = _, literal _ and % are escaped with a backslash
+pub fn likex_string(toks: &Value) -> String {
+    let mut s = String::new();
+    for t in toks.as_array().unwrap() {
+        match t.as_i64().unwrap() {
+            101 => s.push('%'),
+            102 => s.push('_'),
+            31 => s.push_str("\\_"),
+            32 => s.push_str("\\%"),
+            c => s.push(cchar(c)),
+        }
+    }
+    s
+}
+/// inverse of `likex_string` (backslash escapes the next character); None if a character is outside the alphabet
+pub fn likex_tokens(p: &str) -> Option<Vec<i64>> {
+    let mut out = vec![];
+    let mut it = p.chars();
+    while let Some(c) = it.next() {
+        match c {
+            '\\' => out.push(ccode(it.next()?)?),
+            '%' => out.push(101),
+            '_' => out.push(102),
+            c => out.push(ccode(c)?),
+        }
+    }
+    Some(out)
+}
+/// regular expression text of a `re` record (None = NULL pattern)
+pub fn regex_string(re: &Value) -> Option<String> {
+    if re["null"].as_bool().unwrap() {
+        return None;
+    }
+    let grp = re["grp"].as_bool().unwrap();
+    let alts: Vec<String> = re["alts"]
+        .as_array()
+        .unwrap()
+        .iter()
+        .map(|a| {
+            let mut s = String::new();
+            if !grp && a["s"].as_bool().unwrap() {
+                s.push('^');
+            }
+            for it in a["items"].as_array().unwrap() {
+                match it.as_i64().unwrap() {
+                    203 => s.push('.'),
+                    204 => s.push_str(".*"),
+                    33 => s.push_str("\\."),
+                    c => s.push(cchar(c)),
+                }
+            }
+            if !grp && a["e"].as_bool().unwrap() {
+                s.push('$');
+            }
+            s
+        })
+        .collect();
+    Some(if grp { format!("^({})$", alts.join("|")) } else { alts.join("|") })
+}
 
 #[derive(Clone, Debug)]
 pub struct Env {
@@ -27,6 +123,10 @@ pub struct Env {
     /// engine itself gives the function before physical planning (the UDF cannot be invoked: "coalesce should have
     /// been simplified to case"); used when physical expressions are built without the simplifier
     pub coalesce_as_case: bool,
+    /// string values / literals / results belong to the second pool XPOOL (table C)
+    pub xstrings: bool,
+    /// regex pattern text -> `re` record, filled while converting AST -> Expr (used to convert simplified exprs back)
+    pub re_map: Arc<std::sync::Mutex<std::collections::HashMap<String, Value>>>,
 }
 
 pub fn pat_string(tokens: &Value) -> String {
@@ -53,7 +153,7 @@ pub fn env_from_header(h: &Value) -> Env {
     for p in h["pats"].as_array().unwrap() {
         pats.push(pat_string(p));
     }
-    Env { pats, errcode: h["errcode"].as_i64().unwrap(), nullcode: h["nullcode"].as_i64().unwrap(), null_else_as_none: true, coalesce_as_case: false }
+    Env { pats, errcode: h["errcode"].as_i64().unwrap(), nullcode: h["nullcode"].as_i64().unwrap(), null_else_as_none: true, coalesce_as_case: false, xstrings: false, re_map: Default::default() }
 }
 
 pub fn kind_dt(k: &str) -> DataType {
@@ -62,7 +162,7 @@ pub fn kind_dt(k: &str) -> DataType {
         "i8" => DataType::Int8,
         "i16" => DataType::Int16,
         "i32" => DataType::Int32,
-        "s" | "p" => DataType::Utf8,
+        "s" | "p" | "x" => DataType::Utf8,
         "b" => DataType::Boolean,
         other => panic!("unknown kind {other}"),
     }
@@ -77,6 +177,7 @@ pub fn scalar(v: &Value, t: Option<&str>, env: &Env) -> ScalarValue {
         "b" => "b",
         "s" => "s",
         "p" => "p",
+        "x" => "x",
         _ => "null",
     });
     match t {
@@ -87,6 +188,7 @@ pub fn scalar(v: &Value, t: Option<&str>, env: &Env) -> ScalarValue {
         "b" => ScalarValue::Boolean(if null { None } else { Some(n == 1) }),
         "s" => ScalarValue::Utf8(if null { None } else { Some(STR_POOL[n as usize].to_string()) }),
         "p" => ScalarValue::Utf8(if null { None } else { Some(env.pats[n as usize].clone()) }),
+        "x" => ScalarValue::Utf8(if null { None } else { Some(XPOOL[n as usize].to_string()) }),
         _ => ScalarValue::Null,
     }
 }
@@ -108,6 +210,11 @@ fn binop(f: &str) -> Result<Operator, String> {
         "or" => Operator::Or,
         "isdistinct" => Operator::IsDistinctFrom,
         "isnotdistinct" => Operator::IsNotDistinctFrom,
+        "&" => Operator::BitwiseAnd,
+        "|" => Operator::BitwiseOr,
+        "^" => Operator::BitwiseXor,
+        "<<" => Operator::BitwiseShiftLeft,
+        ">>" => Operator::BitwiseShiftRight,
         other => return Err(format!("unknown binary operator {other}")),
     })
 }
@@ -172,6 +279,34 @@ pub fn to_expr(e: &Value, env: &Env) -> Result<Expr, String> {
             let l = Like::new(e["neg"].as_bool().unwrap(), bx(&e["e"])?, bx(&e["pat"])?, None, ci);
             if f == "similar" || f == "isimilar" { Expr::SimilarTo(l) } else { Expr::Like(l) }
         }
+        "likex" => {
+            let pat = Expr::Literal(ScalarValue::Utf8(Some(likex_string(&e["toks"]))), None);
+            Expr::Like(Like::new(e["neg"].as_bool().unwrap(), bx(&e["e"])?, Box::new(pat), None, e["f"] == "ilike"))
+        }
+        "regex" => {
+            let op = match e["f"].as_str().unwrap() {
+                "~" => Operator::RegexMatch,
+                "~*" => Operator::RegexIMatch,
+                "!~" => Operator::RegexNotMatch,
+                "!~*" => Operator::RegexNotIMatch,
+                other => return Err(format!("unknown regex operator {other}")),
+            };
+            let text = regex_string(&e["re"]);
+            if let Some(t) = &text {
+                env.re_map.lock().unwrap().insert(t.clone(), e["re"].clone());
+            }
+            Expr::BinaryExpr(BinaryExpr::new(bx(&e["e"])?, op, Box::new(Expr::Literal(ScalarValue::Utf8(text), None))))
+        }
+        "startswith" => datafusion::functions::string::starts_with().call(vec![x(&e["e"])?, x(&e["pre"])?]),
+        "nvl" => {
+            let (l, r) = (x(&e["l"])?, x(&e["r"])?);
+            if env.coalesce_as_case {
+                // like coalesce, the nvl UDF is only a placeholder that the simplifier turns into CASE
+                Expr::Case(Case::new(None, vec![(Box::new(Expr::IsNotNull(Box::new(l.clone()))), Box::new(l))], Some(Box::new(r))))
+            } else {
+                datafusion::functions::core::nvl().call(vec![l, r])
+            }
+        }
         "cast" => {
             let dt = kind_dt(e["to"].as_str().unwrap());
             if e["try"].as_bool().unwrap() {
@@ -215,6 +350,14 @@ pub fn table_batch_enc(t: &Value, nullable: bool, enc: &str) -> (SchemaRef, Reco
                     _ => Arc::new(StringArray::from(strs)),
                 }
             }
+            "x" => {
+                let strs = ints.iter().map(|x| x.map(|v| XPOOL[v as usize])).collect::<Vec<_>>();
+                match enc {
+                    "view" => Arc::new(StringViewArray::from(strs)),
+                    "dict" => Arc::new(strs.into_iter().collect::<DictionaryArray<arrow::datatypes::Int32Type>>()),
+                    _ => Arc::new(StringArray::from(strs)),
+                }
+            }
             other => panic!("unknown kind {other}"),
         };
         fields.push(Field::new(format!("c{}", c + 1), arr.data_type().clone(), nullable));
@@ -230,7 +373,8 @@ pub fn code_at(a: &ArrayRef, i: usize, env: &Env) -> Result<i64, String> {
     if a.is_null(i) {
         return Ok(env.nullcode);
     }
-    let s = |x: &str| STR_POOL.iter().position(|p| *p == x && !p.is_empty()).map(|ix| ix as i64).ok_or_else(|| format!("string {x:?} outside the pool"));
+    let pool: &[&str] = if env.xstrings { &XPOOL } else { &STR_POOL };
+    let s = |x: &str| pool.iter().position(|p| *p == x && !p.is_empty()).map(|ix| ix as i64).ok_or_else(|| format!("string {x:?} outside the pool"));
     match a.data_type() {
         DataType::Dictionary(_, v) => {
             let c = arrow::compute::cast(a, v.as_ref()).map_err(|e| e.to_string())?;
